@@ -59,8 +59,8 @@ type party struct {
 // seed is a valid token plus what the harness knows about it.
 type seed struct {
 	compact string
-	pub     crypto.PublicKey  // the key the protocol mandates for this token
-	priv    crypto.Signer     // the matching private key when the harness owns it (nil: the key lives in the node)
+	pub     crypto.PublicKey // the key the protocol mandates for this token
+	priv    crypto.Signer    // the matching private key when the harness owns it (nil: the key lives in the node)
 	// notAllowed: algorithms of the key's own family that the consumer does not allow (e.g. RS256 where only PS* is allowed)
 	notAllowed []string
 	// embedsJWK: the protocol carries the verification key in the `jwk` header (DPoP, DAG transaction with jwk).
@@ -412,6 +412,16 @@ func variants(s *seed, rnd *rand.Rand, bulk int) []variant {
 		for _, a := range []string{"ES384", "ES512"} {
 			if a != origAlg {
 				add("alg-unfit-for-key", a+"/signed-by-legit-p256-key", s.build(t, with("alg", a), ec), vHostile)
+				// the embedded jwk itself declares the unfit algorithm (RFC 7517 4.4 "alg" member): a declaration by the token's
+				// author must not make the algorithm fit the key
+				if o, ok := t.hdr["jwk"].(map[string]any); ok && s.embedsJWK {
+					j := map[string]any{}
+					for k, v := range o {
+						j[k] = v
+					}
+					j["alg"] = a
+					add("alg-unfit-for-key", a+"/signed-by-legit-p256-key/jwk-declares-alg", s.build(t, with("alg", a, "jwk", j), ec), vHostile)
+				}
 			}
 		}
 	}
@@ -576,7 +586,9 @@ func variants(s *seed, rnd *rand.Rand, bulk int) []variant {
 				continue
 			}
 			var res []variant
-			reencodings(s, bt, func(class, name, tok string, _ verdict) { res = append(res, variant{class: class, name: name, token: tok, verdict: vHostile}) })
+			reencodings(s, bt, func(class, name, tok string, _ verdict) {
+				res = append(res, variant{class: class, name: name, token: tok, verdict: vHostile})
+			})
 			if len(res) == 0 {
 				continue
 			}
